@@ -125,6 +125,9 @@ class HistFit(FitBase):
             bin_evaluation=self._bin_evaluation,
             density=self._density,
         )
+        if self._density:
+            # the model prediction is the density integral times the number of entries
+            self._param_model._error_reference_scale = self._data_container.n_entries
 
     # -- public properties
 
